@@ -45,7 +45,25 @@ def gen_aimd_regrow(rng, tier):
     return mk_case(cfg, progs, sched)
 
 
+def gen_drain(rng, tier):
+    """a large bucket drained by one long run of withdrawals (fractions of a token left behind by each grant would
+    add up to whole extra retries only after dozens of grants), a second thread depositing now and then"""
+    mx = rng.choice([45, 64, 100, 120])
+    if rng.random() < 0.6:
+        cfg = {"kind": "token", "max": mx, "initial": rng.choice([mx, mx, mx - 3])}
+    else:
+        cfg = {"kind": "aimd", "min": rng.randint(0, 3), "max": mx, "dep": rng.choice([1, 2, 3]), "wd": rng.choice([1, 2, 3]), "fnum": 1, "fden": 2}
+    nd = rng.randint(0, 4)
+    progs = ["W" * (mx + rng.randint(2, 8)), "D" * nd + "W" * rng.randint(0, 3)]
+    sched = []
+    for _ in range(rng.randint(0, 12)):
+        sched += [rng.randint(0, 1)] * rng.choice([1, 2, 5, 20])
+    return mk_case(cfg, progs, sched)
+
+
 def gen(rng, tier):
+    if rng.random() < 0.04:
+        return gen_drain(rng, tier)
     if rng.random() < 0.15:
         return gen_aimd_regrow(rng, tier)
     cfg = gen_cfg(rng)
@@ -70,6 +88,16 @@ def gen(rng, tier):
 
 def model_applies(case):
     return "inner=1" not in case["header"]
+
+
+def canon_step(lines):
+    """what the step-by-step transcription claims: turns, results, balance, limit"""
+    return [l for l in lines if " trace-" not in l]
+
+
+def canon_protocol(lines):
+    """what the protocol-level model claims: the verdict of its checker on the observed value-level trace"""
+    return [l for l in lines if " trace-" in l]
 
 
 _EXH = None
@@ -212,10 +240,10 @@ SPECS = {
     "C08": {
         "group": "budget", "module": "TR.Props.C08", "gen": gen_thorough,
         "monitors": [("c08-conservation", mon_conservation), ("c08-linearizable", mon_linearizable)],
-        "transitions": transitions, "nontrivial": nontrivial, "model_applies": model_applies,
+        "transitions": transitions, "nontrivial": nontrivial, "model_applies": model_applies, "canon": canon_step, "canon_protocol": canon_protocol,
         "all_transitions": ["kind-token", "kind-aimd", "withdraw-granted", "withdraw-refused", "deposit", "skip", "preempted-inside-fetch-update"],
-        "model_modules": ["TR.Model.Budget", "TR.Lemmas.Budget", "TR.Mutants.DepositLoadStore"],
-        "lean_files": ["TR.Model.Budget", "TR.Lemmas.Budget"],
+        "model_modules": ["TR.Model.Budget", "TR.Lemmas.Budget", "TR.Model.BudgetTrace", "TR.Lemmas.BudgetTrace", "TR.Mutants.DepositLoadStore"],
+        "lean_files": ["TR.Model.Budget", "TR.Lemmas.Budget", "TR.Model.BudgetTrace", "TR.Lemmas.BudgetTrace"],
         "sizes": (500, 20000),
         "rule": "2..4 OS threads running programs of 1..4 try_withdraw/deposit calls on one real budget (token bucket or AIMD) with hooked "
                 "atomics; the baton scheduler grants one atomic operation per schedule entry; random schedules (thorough tier first enumerates "
